@@ -14,7 +14,13 @@ library alone:
              own answers) on the composite history, plus "every member is a live track" (is_valid, snapshot());
     observe  an observing call changes nothing (dump + bookkeeping tables before = after) and answers twice the same;
     reopen   close + load: the observation and the dump of the live objects are the same before and after;
-    pragmas  qualified PRAGMA music./perfdata. foreign_key_check and integrity_check (supporting run-time checks)."""
+    pragmas  qualified PRAGMA music./perfdata. foreign_key_check and integrity_check (supporting run-time checks);
+    refs     (work-package lib1plant) `lib1.plantrefs <track>` = what Engine DJ writes when a track is put on a playlist, a
+             history list, the prepare list and is a copied track (raw connection, no library code; model: the environment
+             step `plantRefs` of Lib/V1Refs.lean) is woven into every history — on tracks that are removed later and on
+             tracks that stay; after EVERY call `lib1.fk` (PRAGMA music.foreign_key_check) must be clean and no row of
+             PlaylistTrackList / HistorylistTrackList / PreparelistTrackList / CopiedTrack (/ ListTrackList) in the real
+             dump may name an id without a Track row."""
 import random, re, time
 import runner
 from props.parts import _cratesv1 as CR
@@ -24,8 +30,15 @@ from props.parts import C06_v1 as C06
 SCHEMAS = G.SCHEMAS
 AUTOINC_FROM = SCHEMAS.index("schema_1_17_0")
 PRAGMA_OK = "ok fkm () fkp () icm (s6f6b) icp (s6f6b)"
+FK_OK = "ok fk ()"
+# the stream of planted foreign rows (lib1plant).  Set to False ONLY to park a candidate defect of /repo (see design/Lib1.md).
+PLANT_REFS = True
+# CANDIDATE DEFECT, parked (design/Lib1.md "candidate defect"): with True the witness history plants the rows of t1 with NULL in the
+# nullable columns trackIdInOriginDatabase / databaseUuid; on 1.9.1+ remove_track then leaves the ListTrackList rows behind
+# (lib1.fk, lib1.inv.foreign-keys-clean, lib1.refs.dangling).  Nothing is listed as known; the stream is off so the branch is green.
+PLANT_NULL_COLUMNS = False
 HARNESS_ONLY = ("lib1.bk",)
-OBS = ("v1.obs", "lib1.tobs", "lib1.dump", "lib1.bk", "lib1.pragmas", "lib1.mark", "#", "create", "reopen")
+OBS = ("v1.obs", "lib1.tobs", "lib1.dump", "lib1.fk", "lib1.bk", "lib1.pragmas", "lib1.mark", "#", "create", "reopen")
 
 
 def quick_schemas(seed, n=3):
@@ -44,8 +57,9 @@ class Weave:
     """Turns a crate/membership history of _cratesv1 into a whole-library history: track creations carry real
     snapshots, and track calls / observers on live and removed handles are woven in."""
 
-    def __init__(self, rng, schema, tier, disk=False, reopen=0.0, observers=0.0, track_ops=0.5):
+    def __init__(self, rng, schema, tier, disk=False, reopen=0.0, observers=0.0, track_ops=0.5, plant=0.4):
         self.rng, self.schema, self.tier = rng, schema, tier
+        self.plant = plant if PLANT_REFS else 0.0
         self.disk, self.reopen, self.observers, self.track_ops = disk, reopen, observers, track_ops
         self.tv, self.cv = [], []
         self.paths = []
@@ -78,6 +92,9 @@ class Weave:
             return []
         v = self.rng.choice(self.tv)
         r = self.rng.random()
+        if self.plant and self.rng.random() < 0.12:
+            self.count("plantrefs:any-handle")       # live, removed, or a handle from track_by_id
+            return ["lib1.plantrefs %s" % v]
         if r < 0.6:
             f = self.rng.choice(C06.SETTERS)
             self.count("set:" + f)
@@ -118,9 +135,9 @@ class Weave:
         names = "61 62 7a7a"
 
         def after_op():
-            out.extend(["v1.obs " + names, "lib1.tobs", "lib1.dump"])
+            out.extend(["v1.obs " + names, "lib1.tobs", "lib1.dump", "lib1.fk"])
             if self.reopen and self.rng.random() < self.reopen:
-                out.extend(["reopen", "v1.obs " + names, "lib1.tobs", "lib1.dump"])
+                out.extend(["reopen", "v1.obs " + names, "lib1.tobs", "lib1.dump", "lib1.fk"])
                 self.count("reopen")
 
         out.append("lib1.dump")
@@ -129,14 +146,25 @@ class Weave:
                 names = l[len("v1.obs "):]
                 continue
             w = l.split()
+            planted_after = None
             if w[0] == "v1.mktrack":
                 l = "mktrack %s %s" % (w[1], self.snapshot())
                 if w[1] not in self.tv:
                     self.tv.append(w[1])
+                if self.plant and self.rng.random() < self.plant:
+                    planted_after = w[1]
+            elif w[0] == "rmtrack" and self.plant and self.rng.random() < 0.6:
+                self.count("plantrefs:before-remove")
+                out.append("lib1.plantrefs %s" % w[1])
+                after_op()
             elif w[0] in ("mkroot", "mksub", "getcrate") and w[1] not in self.cv:
                 self.cv.append(w[1])
             out.append(l)
             after_op()
+            if planted_after:
+                self.count("plantrefs:after-create")
+                out.append("lib1.plantrefs %s" % planted_after)
+                after_op()
             while self.rng.random() < self.track_ops:
                 for x in self.track_call():
                     out.append(x)
@@ -154,12 +182,17 @@ def witness(schema, disk=False):
     placeholder row of the AUTOINCREMENT schemas, fix a5d64c8) and written through, a path collides, a stale handle is used."""
     a = G.snap_txt(G.minimal(b"w/a.mp3"))
     b = G.snap_txt(dict(G.minimal(b"w/b.x.flac"), title=b"B", rating=7, key=5, sample_count=441000, sample_rate=G.dbits(44100.0)))
-    obs = ["v1.obs 61 7a7a", "lib1.tobs", "lib1.dump"]
-    ops = ["mkroot c0 61", "mktrack t0 " + a, "mksub c1 c0 62", "addtrack c1 t0", "mktrack t1 " + b, "addtrack c0 t1",
-           "set t1 title s5469", "set t0 year 1999", "rmtrack t1", "set t1 title s58", "update t1 " + b, "addtrack c0 t1",
-           "gettrack g0 2", "set g0 title s5a", "set g0 rating 3", "addtrack c0 g0", "gettrack g1 3", "set g1 artist s41",
-           "mktrack t2 " + b, "mktrack t3 " + a, "rmtrack t2", "mktrack t4 " + b, "set t4 relative_path 772f612e6d7033",
-           "rmcrate c0", "rmtrack t0", "mktrack t5 " + a]
+    obs = ["v1.obs 61 7a7a", "lib1.tobs", "lib1.dump", "lib1.fk"]
+    P = (lambda v: ["lib1.plantrefs " + v]) if PLANT_REFS else (lambda v: [])
+    # Engine's rows (playlist / history / prepare list / copied track) on: t0 (twice; removed at the very end), t1 (removed
+    # while on the lists; planting through the stale handle afterwards is skipped), t2 (the highest id, removed: placeholder
+    # row on the AUTOINCREMENT schemas; planting on it afterwards is skipped), t4 (stays to the end).
+    ops = (["mkroot c0 61", "mktrack t0 " + a] + P("t0") + ["mksub c1 c0 62", "addtrack c1 t0", "mktrack t1 " + b] + P("t1 nulls" if PLANT_NULL_COLUMNS else "t1") +
+           ["addtrack c0 t1", "set t1 title s5469", "set t0 year 1999"] + P("t0") + ["rmtrack t1"] + P("t1") +
+           ["set t1 title s58", "update t1 " + b, "addtrack c0 t1",
+            "gettrack g0 2", "set g0 title s5a", "set g0 rating 3", "addtrack c0 g0", "gettrack g1 3", "set g1 artist s41",
+            "mktrack t2 " + b] + P("t2") + ["mktrack t3 " + a, "rmtrack t2"] + P("t2") + ["mktrack t4 " + b] + P("t4") +
+           ["set t4 relative_path 772f612e6d7033", "rmcrate c0", "rmtrack t0", "mktrack t5 " + a])
     out = ["#mode lib1", "create %s %s" % (schema, "disk" if disk else "mem"), "lib1.mark", "lib1.dump"]
     for l in ops:
         out.append(l)
@@ -306,6 +339,16 @@ def judge(schema, script, hout, mout, inv, mem, families):
         for i, (l, h) in enumerate(zip(script, hout)):
             if l == "lib1.pragmas" and h != PRAGMA_OK and not h.startswith("ub"):
                 add(i, "lib1.pragmas", "qualified PRAGMA checks answered " + h)
+        for i, (l, h) in enumerate(zip(script, hout)):
+            if l == "lib1.fk" and h != FK_OK and not h.startswith("ub"):
+                add(i, "lib1.fk", "PRAGMA music.foreign_key_check after the call answered " + h)
+                break
+        for i, (l, h) in enumerate(zip(script, hout)):
+            if l == "lib1.dump" and h.startswith("ok raw "):
+                bad = dangling_refs(h)
+                if bad:
+                    add(i, "lib1.refs.dangling", "rows naming a track id without a Track row (table code, trackId): %s" % bad)
+                    break
     if "members" in families:
         idx, outs = mem
         for i, o in zip(idx, outs):
@@ -355,12 +398,12 @@ def judge(schema, script, hout, mout, inv, mem, families):
             i += 1
     if "reopen" in families:
         for i, l in enumerate(script):
-            if l == "reopen" and i >= 3 and i + 3 < len(script):
+            if l == "reopen" and i >= 4 and i + 4 < len(script):
                 if not hout[i].startswith("ok " + schema + " "):
                     add(i, "lib1.reopen.schema", "created as %s, load answers %s" % (schema, hout[i]))
                     break
-                for d in (1, 2, 3):
-                    a, b = live_part(hout[i - 4 + d]), live_part(hout[i + d])
+                for d in (1, 2, 3, 4):       # v1.obs, lib1.tobs, lib1.dump, lib1.fk before / after
+                    a, b = live_part(hout[i - 5 + d]), live_part(hout[i + d])
                     if a != b:
                         add(i + d, "lib1.reopen.observation", "%s before closing: %s | after loading: %s" % (
                             script[i + d].split()[0], a[:400], b[:400]))
@@ -371,10 +414,32 @@ def judge(schema, script, hout, mout, inv, mem, families):
     return div, vios
 
 
+DUMP_SEC = re.compile(r" (Track|OT) (\S+)")
+OT_NAMES = {1: "PlaylistTrackList", 2: "HistorylistTrackList", 3: "PreparelistTrackList", 5: "CopiedTrack", 6: "ListTrackList"}
+
+
+def dump_pairs(tok):
+    return [] if tok in ("()", "-") else [tuple(x.split(",")) for x in tok.strip("()").split(")(")]
+
+
+def dangling_refs(dump):
+    """direct oracle on the REAL dump: every (table, trackId) of the OT section names an id of the Track section"""
+    head = dump.split(" R ", 1)[0]
+    sec = {}
+    for m in DUMP_SEC.finditer(head):
+        sec.setdefault(m.group(1), m.group(2))
+    tids = {x[0] for x in dump_pairs(sec.get("Track", "()"))}
+    return ["%s:%s" % (OT_NAMES.get(int(x[0]), x[0]), x[1]) for x in dump_pairs(sec.get("OT", "()")) if x[1] not in tids]
+
+
+def planted_count(script, hout):
+    return sum(1 for l, h in zip(script, hout) if l.startswith("lib1.plantrefs") and h.startswith("ok planted"))
+
+
 def cut(script, line):
     """the prefix of a script up to the observation block after `line`"""
     j = line + 1
-    while j < len(script) and script[j].split()[0] in ("v1.obs", "lib1.tobs", "lib1.dump", "lib1.bk", "lib1.pragmas"):
+    while j < len(script) and script[j].split()[0] in ("v1.obs", "lib1.tobs", "lib1.dump", "lib1.fk", "lib1.bk", "lib1.pragmas"):
         j += 1
     return script[:j]
 
@@ -435,7 +500,7 @@ def run_part(ctx, pid, plan, families, **kw):
                 steps += 1
             elif w not in OBS:
                 k = w + (":" + l.split()[2] if w in ("set", "get") and len(l.split()) > 2 else "") + " -> " + (
-                    " ".join(r.split()[:2]) if r.startswith(("throw", "ub")) else r.split()[0] if r else "?")
+                    " ".join(r.split()[:2]) if r.startswith(("throw", "ub")) or w == "lib1.plantrefs" else r.split()[0] if r else "?")
                 outcomes[k] = outcomes.get(k, 0) + 1
         div, vios = judge(sch, s, h, m, iv, mm, families)
         if div:
